@@ -26,7 +26,7 @@ CTX_REVIEWED = {
 def r_depends(c):
     m = c.model
     subs = [q for q in m.subclasses(IR, strict=True)]
-    if len(subs) < 3:
+    if len(subs) < 2:
         raise AnalysisError(f"only {len(subs)} ImplementedResult subclasses found")
     for q in subs:
         r = m.resolve_method(q, "to_loopy_expression")
@@ -89,7 +89,7 @@ def r_depends(c):
                         f"{ast.unparse(call.func)} for generated code is created with an "
                         "empty dependency set: consumers of this result are not ordered "
                         "after the stores its expression reads")
-    if n_sites < 8:
+    if n_sites < 5:
         raise AnalysisError(f"only {n_sites} ImplementedResult constructions found")
     # consumers hand the context's dependencies to the instruction they create
     for fn in ("add_store",):
@@ -142,8 +142,8 @@ def r_depends(c):
                     f"reads `{cv}.depends_on` afterwards: the instruction that uses the "
                     "expression is not ordered after the stores it reads (a 0-d array "
                     "passed as a scalar argument of a loopy call, say)")
-    if n_ctx < 3:
-        raise AnalysisError(f"only {n_ctx} expression contexts with uses found (floor 3)")
+    if n_ctx < 2:
+        raise AnalysisError(f"only {n_ctx} expression contexts with uses found (floor 2)")
     # PersistentExpressionContext.update_depends_on accumulates (union)
     ud = m.func(LC + ".PersistentExpressionContext.update_depends_on")
     c.check(has(ud, "$s._depends_on = $s._depends_on | $o")
@@ -332,7 +332,7 @@ def r_lowering_tags(c):
                     f"node carries tag {tagref}: tags must not carry semantic "
                     "information (doc/design.rst)")
         c.ok("R07-LOWERING-TAGS", qn, "scanned", m.loc(mi, fd), nontrivial=False)
-    if n_funcs < 40:
+    if n_funcs < 28:
         raise AnalysisError(f"only {n_funcs} expression-producing functions found")
 
 
@@ -387,7 +387,7 @@ def r_tagapi_splice(c):
 SPEC = Spec(
     prop="C07",
     rules=[r_depends, r_strategy, r_lowering_tags, r_tagapi, r_tagapi_splice],
-    floors={"R07-DEPENDS": 15, "R07-STRATEGY": 9, "R07-LOWERING-TAGS": 40,
+    floors={"R07-DEPENDS": 15, "R07-STRATEGY": 8, "R07-LOWERING-TAGS": 36,
             "R07-TAGAPI": 40},
     explanation=(
         "R07-DEPENDS (sibling must-call): every ImplementedResult subclass's "
